@@ -23,4 +23,11 @@ TABLE = [
     ("REQUEST_MAX_END", "ntp-proto/src/packet/v5/extension_fields.rs", r"if payload_len \+ offset > (\d+) \{", "int"),
     ("REMOTE_FILTER_CHUNK", "ntp-proto/src/source.rs", r"bloom_filter: RemoteBloomFilter::new\((\d+)\)\.expect", "int"),
     ("N_BLOOM_INDEXING", "ntp-proto/src/packet/v5/server_reference_id.rs", r"self\.0\[idx\]", "count"),
+    # reference ids used when advertising (C33): the four bytes between the quotes
+    ("REFID_NONE_TEXT", "ntp-proto/src/identifiers.rs", r'pub const NONE: ReferenceId = ReferenceId\(u32::from_be_bytes\(\*b"([^"]*)"\)\);', "text"),
+    ("REFID_PPS_TEXT", "ntp-proto/src/identifiers.rs", r'pub const PPS: ReferenceId = ReferenceId\(u32::from_be_bytes\(\*b"([^"]*)"\)\);', "text"),
+    ("REFID_SOCK_TEXT", "ntp-proto/src/identifiers.rs", r'pub const SOCK: ReferenceId = ReferenceId\(u32::from_be_bytes\(\*b"([^"]*)"\)\);', "text"),
+    ("REFID_CSPTP_TEXT", "ntp-proto/src/identifiers.rs", r'pub const CSPTP: ReferenceId = ReferenceId\(u32::from_be_bytes\(\*b"([^"]*)"\)\);', "text"),
+    ("DEFAULT_SNAPSHOT_STRATUM", "ntp-proto/src/system.rs", r"impl Default for NtpSnapshot \{\s*fn default\(\) -> Self \{\s*Self \{\s*stratum: (\d+),", "int"),
+    ("N_ACCEPT_SYNC_CALLS", "ntp-proto/src/source.rs", r"\.accept_synchronization\(", "count"),
 ]
